@@ -140,8 +140,9 @@ def bulk_chunk(item):
             "bucket": f["bucket"],
             "neg": any((not v >= 0.0) for v in a_t.values()),
             "cneg": any((not v >= 0.0) for v in a_c.values()),
-            # the Cartesian-input area is degenerate (numerically zero, or NaN) for every rule
-            "czero": all((not abs(v) > 1e-6 * ex) for v in a_c.values()),
+            # for every rule the Cartesian-input value is not an area of anything: NaN, numerically zero,
+            # or larger than the whole sphere
+            "czero": all((not (1e-6 * ex < abs(v) <= FOUR_PI)) for v in a_c.values()),
             "d": quant(a_t[DEFAULT] - ex, ex),
             "g": [quant(a_t[r] - ex, ex) for r in GAUSS],
             "t": [quant(a_t[r] - ex, ex) for r in TRI],
